@@ -92,6 +92,9 @@ class Aardvark(object):
         pass
 
     def is_ipmc_accessible(self, target):
+        # the probe is a request of its own: take a fresh sequence number
+        self._inc_sequence_number()
+
         header = IpmbHeaderReq()
         header.netfn = 6
         header.rs_lun = 0
